@@ -489,7 +489,7 @@ theorem eq_Stmt {d d' : Gen.D} {L : Loc} (hC : L.Covers d d') : ∀ st, stmtDep 
     simp only [stmtDep, Bool.or_eq_false_iff, bne_eq_false_iff_eq] at hs
     simp only [prStmt, beq_iff_eq] at hs ⊢
     cases d <;> cases d' <;> simp_all
-  | .createTableAs t q, _, hb => by simp only [prStmt, eq_Q hC q hb]
+  | .createTableAs t ine q, _, hb => by simp only [prStmt, eq_Q hC q hb]
   | .dropTable _ _, _, _ => rfl
   | .set _, _, _ => rfl
   | .analyze t p fc cm ns, hs, _ => by
